@@ -283,13 +283,16 @@ struct Renderer<'a> {
 }
 
 impl Renderer<'_> {
-    fn text(&mut self, t: &str) {
-        let idx = self.text_idx;
-        self.text_idx += 1;
-        let chars: Vec<char> = t.chars().collect();
-        if self.st.cdata_at == Some(idx) {
-            // "]]>" cannot occur inside a CDATA section: split there
-            let mut rest = t;
+    /// `t` as CDATA sections: "]]>" cannot occur inside one (split there), and a carriage return cannot either
+    /// (a reader turns a literal CR into LF): it goes between two sections as a character reference
+    fn cdata(&mut self, t: &str) {
+        let mut first = true;
+        for part in t.split('\r') {
+            if !first {
+                self.out.push_str("&#13;");
+            }
+            first = false;
+            let mut rest = part;
             while let Some(i) = rest.find("]]>") {
                 self.out.push_str("<![CDATA[");
                 self.out.push_str(&rest[..i + 2]);
@@ -299,6 +302,15 @@ impl Renderer<'_> {
             self.out.push_str("<![CDATA[");
             self.out.push_str(rest);
             self.out.push_str("]]>");
+        }
+    }
+
+    fn text(&mut self, t: &str) {
+        let idx = self.text_idx;
+        self.text_idx += 1;
+        let chars: Vec<char> = t.chars().collect();
+        if self.st.cdata_at == Some(idx) {
+            self.cdata(t);
             return;
         }
         if let Some((i, offs, bits)) = &self.st.multi {
@@ -311,9 +323,7 @@ impl Renderer<'_> {
                     let piece: String = chars[prev..cut].iter().collect();
                     prev = cut;
                     if (bits >> k) & 1 == 1 && !piece.contains("]]>") {
-                        self.out.push_str("<![CDATA[");
-                        self.out.push_str(&piece);
-                        self.out.push_str("]]>");
+                        self.cdata(&piece);
                         last_plain = false;
                     } else {
                         if last_plain {
